@@ -65,26 +65,38 @@ theorem inv_lt_one (k : α) (hk : 1 < k) : 0 < 1/k ∧ 1/k < 1 := by
     have := OrderedRing.mul_le_mul_of_nonneg_right (show 1 ≤ 1/k by grind) (show 0 ≤ k by grind)
     grind
 
+theorem absα_sub_comm (a b : α) : absα (a - b) = absα (b - a) := by
+  rcases absα_cases (a - b) with ⟨p, q⟩ | ⟨p, q⟩ <;> rcases absα_cases (b - a) with ⟨p', q'⟩ | ⟨p', q'⟩ <;>
+    rw [q, q'] <;> grind
+
+/-- the repaired toe width: positive and at most 5 % of the angle range -/
+theorem delta_fix (a b : α) (hb : 0 < b) :
+    0 < (if minα a b ≤ 0 then b else minα a b) ∧ (if minα a b ≤ 0 then b else minα a b) ≤ b := by
+  by_cases c : minα a b ≤ 0
+  · rw [if_pos c]; exact ⟨hb, Std.le_refl _⟩
+  · rw [if_neg c]
+    rcases minα_cases a b with ⟨_, q⟩ | ⟨_, q⟩ <;> rw [q] at c ⊢ <;> constructor <;> grind
+
 /-- arithmetic of the increasing orientation -/
-theorem passive_arith_inc (z o kl ko δ : α) (hzo : z < o)
+theorem passive_arith_inc (z o kl ko d0 δ : α) (hzo : z < o)
     (g2 : ¬absα kl > 9 / 10 / absα (o - z)) (g3 : ¬absα ko < 11 / 10 / absα (o - z))
-    (g4 : ¬ko * kl < 0) (g5 : ¬ko * (o - z) < 0) (hk1 : absα ko > 1)
-    (hδ : (if ko < 0 then minα (1 / 10 * (1 - absα (1 / ko))) (5 / 100 * absα (o - z)) * -1
-              else minα (1 / 10 * (1 - absα (1 / ko))) (5 / 100 * absα (o - z))) = δ) :
+    (g4 : ¬ko * kl < 0) (g5 : ¬ko * (o - z) < 0) (g7 : absα ko > rootEPS)
+    (hd0 : 0 < d0) (hd1 : d0 ≤ 5 / 100 * absα (o - z))
+    (hδ : (if ko < 0 then d0 * -1 else d0) = δ) :
     0 ≤ kl ∧ kl ≤ ko ∧ 0 < δ ∧ δ ≤ (1/20) * (o - z) ∧ kl * (o - z) ≤ 9/10 ∧
-    absα (kl - ko) > rootEPS := by
+    (absα (kl - ko) > rootEPS ∨ absα (o - z) * rootEPS < 2/10 → absα (kl - ko) > rootEPS) := by
   have hr := rootEPS_pos (α := α)
   have hD : 0 < o - z := by grind
   have eD : absα (o - z) = o - z := by rcases absα_cases (o - z) with ⟨a, b⟩ | ⟨a, b⟩ <;> grind
-  rw [eD] at g2 g3 hδ
-  have hko : 1 < ko := by
+  rw [eD] at g2 g3 hd1 ⊢
+  have hko : 0 < ko := by
     rcases absα_cases ko with ⟨a, b⟩ | ⟨a, b⟩
     · have := OrderedRing.mul_neg_of_neg_of_pos a hD; grind
     · grind
   have hkl : 0 ≤ kl := by
     by_cases c : 0 ≤ kl
     · exact c
-    · have := OrderedRing.mul_neg_of_pos_of_neg (show 0 < ko by grind) (show kl < 0 by grind); grind
+    · have := OrderedRing.mul_neg_of_pos_of_neg hko (show kl < 0 by grind); grind
   have eko : absα ko = ko := by rcases absα_cases ko with ⟨a, b⟩ | ⟨a, b⟩ <;> grind
   have ekl : absα kl = kl := by rcases absα_cases kl with ⟨a, b⟩ | ⟨a, b⟩ <;> grind
   rw [ekl] at g2; rw [eko] at g3
@@ -97,46 +109,42 @@ theorem passive_arith_inc (z o kl ko δ : α) (hzo : z < o)
     · exact c
     · have := OrderedRing.mul_le_mul_of_nonneg_right (show ko ≤ kl by grind) (show 0 ≤ o - z by grind)
       grind
-  have hnd : absα (kl - ko) > rootEPS := by
-    have e : absα (kl - ko) = ko - kl := by rcases absα_cases (kl - ko) with ⟨a, b⟩ | ⟨a, b⟩ <;> grind
-    rw [e]
-    by_cases c : 1 ≤ o - z
-    · have := OrderedRing.mul_le_mul_of_nonneg_left c hkl
-      simp only [rootEPS]; grind
-    · by_cases c2 : ko - kl > rootEPS
+  have hnd : absα (kl - ko) > rootEPS ∨ (o - z) * rootEPS < 2/10 → absα (kl - ko) > rootEPS := by
+    rintro (hh | hh)
+    · exact hh
+    · have e : absα (kl - ko) = ko - kl := by rcases absα_cases (kl - ko) with ⟨a, b⟩ | ⟨a, b⟩ <;> grind
+      rw [e]
+      by_cases c2 : ko - kl > rootEPS
       · exact c2
       · exfalso
         have := OrderedRing.mul_le_mul_of_nonneg_right (show ko - kl ≤ rootEPS by grind) (show 0 ≤ o - z by grind)
-        have := OrderedRing.mul_lt_mul_of_pos_left (show o - z < 1 by grind) hr
-        simp only [rootEPS] at *; grind
-  obtain ⟨i0, i1⟩ := inv_lt_one ko hko
-  have ei : absα (1/ko) = 1/ko := by rcases absα_cases (1/ko) with ⟨a, b⟩ | ⟨a, b⟩ <;> grind
-  rw [ei, if_neg (show ¬ ko < 0 by grind)] at hδ
-  rcases minα_cases (1 / 10 * (1 - 1 / ko)) (5 / 100 * (o - z)) with ⟨a, b⟩ | ⟨a, b⟩ <;>
-    rw [hδ] at b <;> refine ⟨hkl, hlt, ?_, ?_, ?_, hnd⟩ <;> grind
+        grind
+  rw [if_neg (show ¬ ko < 0 by grind)] at hδ
+  subst hδ
+  exact ⟨hkl, hlt, hd0, by grind, by grind, hnd⟩
 
 /-- arithmetic of the decreasing orientation -/
-theorem passive_arith_dec (z o kl ko δ : α) (hzo : o < z)
+theorem passive_arith_dec (z o kl ko d0 δ : α) (hzo : o < z)
     (g2 : ¬absα kl > 9 / 10 / absα (o - z)) (g3 : ¬absα ko < 11 / 10 / absα (o - z))
-    (g4 : ¬ko * kl < 0) (g5 : ¬ko * (o - z) < 0) (hk1 : absα ko > 1)
-    (hδ : (if ko < 0 then minα (1 / 10 * (1 - absα (1 / ko))) (5 / 100 * absα (z - o)) * -1
-              else minα (1 / 10 * (1 - absα (1 / ko))) (5 / 100 * absα (z - o))) = δ) :
-    kl ≤ 0 ∧ ko ≤ kl ∧ ko < -1 ∧ δ < 0 ∧ -((1/20) * (z - o)) ≤ δ ∧ -(9/10) ≤ kl * (z - o) ∧
-    absα (ko - kl) > rootEPS := by
+    (g4 : ¬ko * kl < 0) (g5 : ¬ko * (o - z) < 0) (g7 : absα ko > rootEPS)
+    (hd0 : 0 < d0) (hd1 : d0 ≤ 5 / 100 * absα (z - o))
+    (hδ : (if ko < 0 then d0 * -1 else d0) = δ) :
+    kl ≤ 0 ∧ ko ≤ kl ∧ δ < 0 ∧ -((1/20) * (z - o)) ≤ δ ∧ -(9/10) ≤ kl * (z - o) ∧
+    (absα (kl - ko) > rootEPS ∨ absα (o - z) * rootEPS < 2/10 → absα (ko - kl) > rootEPS) := by
   have hr := rootEPS_pos (α := α)
   have hD : 0 < z - o := by grind
   have eD : absα (o - z) = z - o := by rcases absα_cases (o - z) with ⟨a, b⟩ | ⟨a, b⟩ <;> grind
   have eD' : absα (z - o) = z - o := by rcases absα_cases (z - o) with ⟨a, b⟩ | ⟨a, b⟩ <;> grind
-  rw [eD] at g2 g3; rw [eD'] at hδ
-  have hko : ko < -1 := by
+  rw [eD] at g2 g3 ⊢; rw [eD'] at hd1
+  have hko : ko < 0 := by
     rcases absα_cases ko with ⟨a, b⟩ | ⟨a, b⟩
-    · grind
+    · exact a
     · have h1 : 0 < ko := by grind
       have := OrderedRing.mul_neg_of_pos_of_neg h1 (show o - z < 0 by grind); grind
   have hkl : kl ≤ 0 := by
     by_cases c : kl ≤ 0
     · exact c
-    · have := OrderedRing.mul_neg_of_neg_of_pos (show ko < 0 by grind) (show 0 < kl by grind); grind
+    · have := OrderedRing.mul_neg_of_neg_of_pos hko (show 0 < kl by grind); grind
   have eko : absα ko = -ko := by rcases absα_cases ko with ⟨a, b⟩ | ⟨a, b⟩ <;> grind
   have ekl : absα kl = -kl := by rcases absα_cases kl with ⟨a, b⟩ | ⟨a, b⟩ <;> grind
   rw [ekl] at g2; rw [eko] at g3
@@ -149,32 +157,28 @@ theorem passive_arith_dec (z o kl ko δ : α) (hzo : o < z)
     · exact c
     · have := OrderedRing.mul_le_mul_of_nonneg_right (show kl ≤ ko by grind) (show 0 ≤ z - o by grind)
       grind
-  -- non-degenerate: |ko - kl| ≥ max (1 - 0.9/D, 0.2/D) > sqrt(eps)
-  have hnd : absα (ko - kl) > rootEPS := by
-    have e : absα (ko - kl) = kl - ko := by rcases absα_cases (ko - kl) with ⟨a, b⟩ | ⟨a, b⟩ <;> grind
-    rw [e]
-    by_cases c : 1 ≤ z - o
-    · have := OrderedRing.mul_le_mul_of_nonpos_left c hkl
-      simp only [rootEPS]; grind
-    · by_cases c2 : kl - ko > rootEPS
+  have hnd : absα (kl - ko) > rootEPS ∨ (z - o) * rootEPS < 2/10 → absα (ko - kl) > rootEPS := by
+    rintro (hh | hh)
+    · rw [absα_sub_comm]; exact hh
+    · have e : absα (ko - kl) = kl - ko := by rcases absα_cases (ko - kl) with ⟨a, b⟩ | ⟨a, b⟩ <;> grind
+      rw [e]
+      by_cases c2 : kl - ko > rootEPS
       · exact c2
       · exfalso
         have := OrderedRing.mul_le_mul_of_nonneg_right (show kl - ko ≤ rootEPS by grind) (show 0 ≤ z - o by grind)
-        have := OrderedRing.mul_lt_mul_of_pos_left (show z - o < 1 by grind) hr
-        simp only [rootEPS] at *; grind
-  obtain ⟨i0, i1⟩ := inv_lt_one (-ko) (by grind)
-  have ei' : 1 / (-ko) = -(1/ko) := by grind
-  rw [ei'] at i0 i1
-  have ei : absα (1/ko) = -(1/ko) := by rcases absα_cases (1/ko) with ⟨a, b⟩ | ⟨a, b⟩ <;> grind
-  rw [ei, if_pos (show ko < 0 by grind)] at hδ
-  rcases minα_cases (1 / 10 * (1 - -(1 / ko))) (5 / 100 * (z - o)) with ⟨a, b⟩ | ⟨a, b⟩ <;>
-    rw [← hδ, b] <;> refine ⟨hkl, hlt, hko, ?_, ?_, ?_, hnd⟩ <;> grind
+        grind
+  rw [if_pos hko] at hδ
+  subst hδ
+  exact ⟨hkl, hlt, by grind, by grind, by grind, hnd⟩
 
-/-- `createPassiveTorqueAngleCurve`: well-formed for `|stiffnessAtOneNormTorque| > 1` (for a smaller
-    magnitude the code computes a NEGATIVE toe width: counterexample in `Props/C18Curve.lean`) -/
+/-- `createPassiveTorqueAngleCurve` (repaired toe width): on the whole documented domain the curve of
+    the increasing orientation is well-formed; in both orientations it is well-formed and made of
+    corner sections when the corner between the two sections is non-degenerate, which holds whenever
+    the angle range is below 0.2/sqrt(eps) -/
 theorem passiveTorqueAngle_spec (z o kl ko cu : α) (c : Curve α)
-    (h : Factory.passiveTorqueAngle z o kl ko cu = some c) (hk1 : absα ko > 1) :
-    c.WF ∧ ∃ kx ky km, c.CornerBuilt kx ky km := by
+    (h : Factory.passiveTorqueAngle z o kl ko cu = some c) :
+    (z < o → c.WF) ∧
+    (absα (kl - ko) > rootEPS ∨ absα (o - z) * rootEPS < 2/10 → c.WF ∧ ∃ kx ky km, c.CornerBuilt kx ky km) := by
   have hr := rootEPS_pos (α := α)
   simp only [Factory.passiveTorqueAngle] at h
   obtain ⟨g1, h⟩ := guard_none' _ _ _ h
@@ -191,10 +195,14 @@ theorem passiveTorqueAngle_spec (z o kl ko cu : α) (c : Curve α)
   · simp only [hzo, if_true] at h
     obtain ⟨g7, h⟩ := guard_none _ _ _ h
     rename_i h7; clear h7
-    generalize hδ : (if ko < 0 then minα (1 / 10 * (1 - absα (1 / ko))) (5 / 100 * absα (o - z)) * -1
-              else minα (1 / 10 * (1 - absα (1 / ko))) (5 / 100 * absα (o - z))) = δ at h
-    obtain ⟨f1, f2, f3, f4, f5, f6⟩ := passive_arith_inc z o kl ko δ hzo g2 g3 g4 g5 hk1 hδ
-    clear hδ g1 g2 g3 g4 g5 g6 g7
+    have hb : 0 < 5 / 100 * absα (o - z) := by
+      rcases absα_cases (o - z) with ⟨a, b⟩ | ⟨a, b⟩ <;> grind
+    obtain ⟨d0p, d0le⟩ := delta_fix (1 / 10 * (1 - absα (1 / ko))) (5 / 100 * absα (o - z)) hb
+    generalize (if minα (1 / 10 * (1 - absα (1 / ko))) (5 / 100 * absα (o - z)) ≤ 0 then 5 / 100 * absα (o - z)
+      else minα (1 / 10 * (1 - absα (1 / ko))) (5 / 100 * absα (o - z))) = d0 at h d0p d0le
+    generalize hδ : (if ko < 0 then d0 * -1 else d0) = δ at h
+    obtain ⟨f1, f2, f3, f4, f5, f6⟩ := passive_arith_inc z o kl ko d0 δ hzo g2 g3 g4 g5 g7 d0p d0le hδ
+    clear hδ g1 g2 g3 g4 g5 g6 g7 hb d0p d0le
     obtain ⟨p0, hp0, h⟩ := bind_some _ _ _ h
     obtain ⟨p1, hp1, hc⟩ := bind_some _ _ _ h
     simp only [pure, Option.some.injEq] at hc
@@ -215,17 +223,22 @@ theorem passiveTorqueAngle_spec (z o kl ko cu : α) (c : Curve α)
     -- second section: (xLow, yLow, kl) -> (o, 1, ko)
     obtain ⟨b1, b2, b3, b4, b5, b6⟩ := corner_sec2 _ _ _ _ _ _ cu p1 (by grind) hc0 hc1 hp1 f1 f2 (by grind)
     rw [← hc]
-    exact ⟨WF_two p0 p1 _ _ _ _ _ _ a1 b1 a2 b3 a4 b5 (by rw [a3, b2]) (by rw [a5, b4]) s0 b6,
-      _, _, _, cornerBuilt_two p0 p1 _ _ _ _ _ _ _ _ _ _ hp0 hp1 a1 b1 n0 (Or.inl f6)⟩
+    have hW := WF_two p0 p1 _ _ _ _ _ _ a1 b1 a2 b3 a4 b5 (by rw [a3, b2]) (by rw [a5, b4]) s0 b6
+    exact ⟨fun _ => hW, fun hh => ⟨hW, _, _, _,
+      cornerBuilt_two p0 p1 _ _ _ _ _ _ _ _ _ _ hp0 hp1 a1 b1 n0 (Or.inl (f6 hh))⟩⟩
   · simp only [hzo, if_false] at h
     obtain ⟨g7, h⟩ := guard_none _ _ _ h
     rename_i h7; clear h7
     have hoz : o < z := by
       rcases absα_cases (o - z) with ⟨a, b⟩ | ⟨a, b⟩ <;> grind
-    generalize hδ : (if ko < 0 then minα (1 / 10 * (1 - absα (1 / ko))) (5 / 100 * absα (z - o)) * -1
-              else minα (1 / 10 * (1 - absα (1 / ko))) (5 / 100 * absα (z - o))) = δ at h
-    obtain ⟨f1, f2, f3, f4, f5, f6, f7⟩ := passive_arith_dec z o kl ko δ hoz g2 g3 g4 g5 hk1 hδ
-    clear hδ g1 g2 g3 g4 g5 g6 g7
+    have hb : 0 < 5 / 100 * absα (z - o) := by
+      rcases absα_cases (z - o) with ⟨a, b⟩ | ⟨a, b⟩ <;> grind
+    obtain ⟨d0p, d0le⟩ := delta_fix (1 / 10 * (1 - absα (1 / ko))) (5 / 100 * absα (z - o)) hb
+    generalize (if minα (1 / 10 * (1 - absα (1 / ko))) (5 / 100 * absα (z - o)) ≤ 0 then 5 / 100 * absα (z - o)
+      else minα (1 / 10 * (1 - absα (1 / ko))) (5 / 100 * absα (z - o))) = d0 at h d0p d0le
+    generalize hδ : (if ko < 0 then d0 * -1 else d0) = δ at h
+    obtain ⟨f1, f2, f4, f5, f6, f7⟩ := passive_arith_dec z o kl ko d0 δ hoz g2 g3 g4 g5 g7 d0p d0le hδ
+    clear hδ g1 g2 g3 g4 g5 g6 g7 hb d0p d0le
     obtain ⟨p0, hp0, h⟩ := bind_some _ _ _ h
     obtain ⟨p1, hp1, hc⟩ := bind_some _ _ _ h
     simp only [pure, Option.some.injEq] at hc
@@ -233,7 +246,6 @@ theorem passiveTorqueAngle_spec (z o kl ko cu : α) (c : Curve α)
     have hkδ := OrderedRing.mul_nonneg_of_nonpos_of_nonpos f1 (show δ ≤ 0 by grind)
     -- first section: (o, 1, ko) -> (xLow, yLow, kl)
     obtain ⟨a1, a2, a3, a4, a5, a6, a7⟩ := corner_sec2r _ _ _ _ _ _ cu p0 (by grind) hc0 hc1 hp0 f1 f2 (by grind)
-    have s0 := a7 f7
     -- second section: (xLow, yLow, kl) -> (z, 0, 0)
     obtain ⟨b1, b2, b3, b4, b5, b6, _⟩ := corner_sec _ _ _ _ _ _ cu p1 (by grind) hc0 hc1 hp1
       (fun hd => by
@@ -246,7 +258,9 @@ theorem passiveTorqueAngle_spec (z o kl ko cu : α) (c : Curve α)
         have := OrderedRing.mul_pos_of_neg_of_neg hkl f4
         exact Or.inl ⟨by grind, by grind⟩)
     rw [← hc]
+    refine ⟨fun hh => absurd hh hzo, fun hh => ?_⟩
+    have s0 := a7 (f7 hh)
     exact ⟨WF_two p0 p1 _ _ _ _ _ _ a1 b1 a2 b3 a4 b5 (by rw [a3, b2]) (by rw [a5, b4]) s0 b6,
-      _, _, _, cornerBuilt_two p0 p1 _ _ _ _ _ _ _ _ _ _ hp0 hp1 a1 b1 (Or.inl f7) (Or.inr (by grind))⟩
+      _, _, _, cornerBuilt_two p0 p1 _ _ _ _ _ _ _ _ _ _ hp0 hp1 a1 b1 (Or.inl (f7 hh)) (Or.inr (by grind))⟩
 end order
 end Rbdl.L18C
